@@ -524,7 +524,7 @@ def run(ctx: Ctx):
     ctx.rule = RULE
     ctx.assumptions = ["'fresh process' = a process that imported the package and never translated (forked from the pristine runner)",
                        "step and probe queries come from a fixed pool that declares every kind of remembered state; Hypothesis draws the histories"]
-    total = ctx.n(640, 16000)
+    total = ctx.n(960, 16000)
     shards = 16
     payloads = [(derive_seed(ctx.seed, "C07", i), max(1, total // shards), ctx.deadline, 10 if ctx.quick else 14, not ctx.quick) for i in range(shards)]
     for st_ in run_shards("vf.props.C07", "worker", payloads):
